@@ -5,8 +5,9 @@ package main
 // (DefaultModes is ONE package-level message shared by every default model: two models, absolute and
 // relative updates through the server, AvailableValues / Modes readers that marshal what they get) and
 // press — through the Model API, the ModelServers and their in-process wrappers, with subscribers that
-// read every event they receive.  With it every package under pkg/trait that has a model is driven by at
-// least one scenario.
+// read every event they receive; plus pkg/server's InfoServer (device registry under an RWMutex; listers
+// marshal every device they are given).  With it every package under pkg/trait that has a model, and every
+// type of pkg/** with a mutex, is driven by at least one scenario.
 
 import (
 	"context"
@@ -14,18 +15,21 @@ import (
 	"math/rand"
 	"time"
 
+	"github.com/smart-core-os/sc-api/go/info"
 	"github.com/smart-core-os/sc-api/go/traits"
 	"github.com/smart-core-os/sc-golang/pkg/resource"
+	"github.com/smart-core-os/sc-golang/pkg/server"
 	"github.com/smart-core-os/sc-golang/pkg/trait/accesspb"
 	"github.com/smart-core-os/sc-golang/pkg/trait/meterpb"
 	"github.com/smart-core-os/sc-golang/pkg/trait/modepb"
 	"github.com/smart-core-os/sc-golang/pkg/trait/presspb"
+	"go.uber.org/zap"
 	"google.golang.org/protobuf/proto"
 	"google.golang.org/protobuf/types/known/fieldmaskpb"
 )
 
 func init() {
-	scenarios = append(scenarios, scenario{"remaining-models", 1, []string{"accesspb.", "meterpb.", "modepb.", "presspb.", "shared:", "resource.", "minibus.", "wrap.", "bus-shared:", "local:"}, wlRemainingModels})
+	scenarios = append(scenarios, scenario{"remaining-models", 1, []string{"accesspb.", "meterpb.", "modepb.", "presspb.", "server.", "shared:", "resource.", "minibus.", "wrap.", "bus-shared:", "local:"}, wlRemainingModels})
 }
 
 func wlRemainingModels(w *wl) {
@@ -39,6 +43,7 @@ func wlRemainingModels(w *wl) {
 	modeC := modepb.WrapApi(modeSrvA)
 	pressSrv := presspb.NewModelServer(press)
 	pressC := presspb.WrapApi(pressSrv)
+	infoSrv := server.NewInfoServer(zap.NewNop())
 	bg := context.Background()
 	temps, spins := []string{"delicates", "medium", "whites"}, []string{"auto", "slow", "fast"}
 	recvSome := func(cancel context.CancelFunc, recv func() (proto.Message, error)) {
@@ -59,7 +64,7 @@ func wlRemainingModels(w *wl) {
 	w.par(func(id int, rng *rand.Rand) {
 		for i := 0; w.more(i); i++ {
 			ctx, cancel := context.WithTimeout(bg, time.Duration(rng.Intn(5)+1)*time.Millisecond)
-			switch rng.Intn(16) {
+			switch rng.Intn(18) {
 			case 0: // access
 				res, _ := access.UpdateLastAccessAttempt(&traits.AccessAttempt{Grant: traits.AccessAttempt_Grant(rng.Intn(4)), Reason: fmt.Sprint(id, i),
 					Actor: &traits.AccessAttempt_Actor{Name: fmt.Sprint("a", id)}})
@@ -135,6 +140,22 @@ func wlRemainingModels(w *wl) {
 				readMsg(press.GetPressedState())
 				res, _ := pressC.GetPressedState(ctx, &traits.GetPressedStateRequest{Name: "p", ReadMask: &fieldmaskpb.FieldMask{Paths: []string{"state"}}})
 				readMsg(res)
+			case 14: // the device registry
+				// half of the registrations are repeats of a few names, half are new names (the registry keeps
+				// being written while others look names up and list)
+				d := &info.Device{Name: fmt.Sprint("dev/", rng.Intn(6)), Traits: []*info.Trait{{Name: "t"}}}
+				if rng.Intn(2) == 0 {
+					d.Name = fmt.Sprint("dev/", id, "/", i)
+				}
+				if rng.Intn(3) == 0 {
+					infoSrv.RemoveDevice(d)
+				} else {
+					infoSrv.AddDevice(d)
+				}
+			case 15:
+				if res, err := infoSrv.ListDevices(ctx, &info.ListDevicesRequest{}); err == nil {
+					readMsg(res)
+				}
 			default:
 				if rng.Intn(2) == 0 {
 					drain(ctx, press.PullPressedState(ctx, resource.WithUpdatesOnly(rng.Intn(2) == 0)), 20, func(c presspb.PullPressedStateChange) { readMsg(c.Value) })
